@@ -12,18 +12,18 @@ import (
 // holds the baton at any time.
 
 type G struct {
-	id      int
-	name    string
-	resume  chan bool
-	wait    func() bool
-	waitWhy string
-	done    bool
-	started bool
-	crashed *goPanic
+	id       int
+	name     string
+	resume   chan bool
+	wait     func() bool
+	waitWhy  string
+	done     bool
+	started  bool
+	crashed  *goPanic
 	watchdog bool
 	killed   bool
-	fn      Value
-	args    []Value
+	fn       Value
+	args     []Value
 }
 
 type Sched struct {
@@ -278,9 +278,44 @@ func (p *Path) numBlocked() int {
 	return n
 }
 
+// maybePreempt: context-bounded schedule exploration. At a synchronisation point the running goroutine may be
+// preempted in favour of another runnable one; at most h.Preemptions such switches per path (n-ary choice,
+// no solver involved). Without a bound (0) the canonical schedule is used.
+func (p *Path) maybePreempt() {
+	if p.h.Preemptions == 0 || p.preemptUsed >= p.h.Preemptions || p.sched == nil || p.sched.cur == nil {
+		return
+	}
+	g := p.sched.cur
+	other := false
+	for _, o := range p.sched.gs {
+		if o != g && !o.done && !o.watchdog && (o.wait == nil || o.wait()) {
+			other = true
+			break
+		}
+	}
+	if !other {
+		return
+	}
+	if p.ChooseN(2) == 1 {
+		p.preemptUsed++
+		first := true
+		g.wait = func() bool {
+			if first {
+				first = false
+				return false
+			}
+			return true
+		}
+		g.waitWhy = "preempted"
+		p.yield()
+		g.wait = nil
+	}
+}
+
 // ---------- channels ----------
 
 func (p *Path) chanSend(cv Value, v Value) {
+	p.maybePreempt()
 	ch := cv.(*ChanObj)
 	if ch == nil {
 		p.block("send on nil channel", func() bool { return false })
@@ -324,6 +359,7 @@ func (ch *ChanObj) take() (Value, bool) {
 }
 
 func (p *Path) chanRecv(cv Value) (Value, bool) {
+	p.maybePreempt()
 	ch := cv.(*ChanObj)
 	if ch == nil {
 		p.block("receive on nil channel", func() bool { return false })
@@ -442,6 +478,7 @@ func (p *Path) mutex(ptr *Value) *mutexState {
 }
 
 func (p *Path) mutexLock(ptr *Value) {
+	p.maybePreempt()
 	if ptr == nil {
 		p.goPanicStr("nil pointer dereference (Mutex.Lock)")
 	}
@@ -459,6 +496,7 @@ func (p *Path) mutexLock(ptr *Value) {
 }
 
 func (p *Path) mutexUnlock(ptr *Value) {
+	defer p.maybePreempt()
 	m := p.mutex(ptr)
 	if !m.locked {
 		p.fatalGo("sync: unlock of unlocked mutex")
@@ -478,6 +516,7 @@ func (p *Path) mutexTryLock(ptr *Value) bool {
 }
 
 func (p *Path) mutexRLock(ptr *Value) {
+	p.maybePreempt()
 	m := p.mutex(ptr)
 	g := p.sched.cur
 	why := "RLock of a write-held RWMutex"
@@ -490,6 +529,7 @@ func (p *Path) mutexRLock(ptr *Value) {
 }
 
 func (p *Path) mutexRUnlock(ptr *Value) {
+	defer p.maybePreempt()
 	m := p.mutex(ptr)
 	if m.readers == 0 {
 		p.fatalGo("sync: RUnlock of unlocked RWMutex")
